@@ -494,7 +494,7 @@ func caseKind(pred *ssa.BasicBlock, ccmT *types.Named) string {
 
 func (c *Ctx) checkOboStores(fn *ssa.Function, asUser, authLvlF, sessUid, sessLvl *types.Var, levelRoot *types.Const) {
 	r := c.R
-	r.Floor("C11.2-obo-root-only", 3)
+	r.Floor("C11.2-obo-root-only", 2)
 	gRoot := core.EqGuard("Session.authLvl==LevelRoot", core.IsFieldLoad(sessLvl), core.IsConstOf(levelRoot), true)
 	for _, root := range core.WithClosures(fn) {
 		root := root
@@ -513,6 +513,34 @@ func (c *Ctx) checkOboStores(fn *ssa.Function, asUser, authLvlF, sessUid, sessLv
 			if own {
 				r.OK("C11.2-obo-root-only", construct+" [own identity]", c.pos(st), "value is the session's own uid / level")
 				return
+			}
+			// the identity is resolved by a helper that returns it in a small struct: per return of the
+			// helper the value is the session's own, or that return is behind the root test
+			if call, ri, path, isComp := core.ResultComponent(core.Strip(st.Val)); isComp && len(path) == 1 {
+				callee := call.Call.StaticCallee()
+				allOK := true
+				isOwn := core.Or(core.IsFieldLoad(sessLvl), core.IsCallTo(uidUserId, core.IsFieldLoad(sessUid)))
+				decided := core.EachReturnedFieldValue(callee, ri, path[0], func(ret *ssa.Return, vals []ssa.Value, zero bool) {
+					foreign := false
+					for _, v := range vals {
+						if !core.Derives(v, isOwn, true) {
+							foreign = true
+						}
+					}
+					if !foreign {
+						return
+					}
+					core.NoLift = true
+					g, cnt := core.GuardedBy(callee, ret, gRoot)
+					core.NoLift = false
+					if !g || cnt[0] == 0 {
+						allOK = false
+					}
+				})
+				if decided && allOK {
+					r.OK("C11.2-obo-root-only", construct+" [own identity, or a foreign one resolved behind authLvl==LevelRoot]", c.pos(st), "decided per return of "+callee.Name())
+					return
+				}
 			}
 			ok2, cnt := core.GuardedBy(f, st, gRoot)
 			if !(ok2 && cnt[0] > 0) && f != root {
